@@ -1,7 +1,7 @@
 (* C03 -- encoded messages are RFC 4511 BER that an independent decoder reads back. *)
 From Coq Require Import ZArith NArith List.
 From Coq.Strings Require Import Byte.
-From SV Require Import Base.Bytes Base.Py Gen.Generated Asn1.Model Asn1.TlvProofs Msg.Types Msg.Encode
+From SV Require Import Gen.Sharing Base.Bytes Base.Py Gen.Generated Asn1.Model Asn1.TlvProofs Msg.Types Msg.Encode
   Msg.Rfc Msg.RfcDecode Msg.RfcConform Msg.RfcDecodeProofs.
 Import ListNotations.
 Local Open Scope N_scope.
@@ -59,9 +59,17 @@ Example C03_example :
   m_op m <> UnbindRequest /\ nlen (enc_msg m) < max_len /\ strict_decode (enc_msg m) = Some (gen_msg m).
 Proof. cbv zeta. split; [discriminate|]. split; vm_compute; reflexivity. Qed.
 
+(* The theorems above are about functions and values; that the message codec (_messages.py, _controls.py, _authentication.py, asn1.py, the BER half of _filter.py) keeps no state
+   between calls and shares none between objects is read off the source by tools/audit.py on every run
+   (Gen/Sharing.v): no memoisation, no module- or class-level container that is written, no mutable default, no
+   attribute written behind a dataclass, no parameter stored without a copy. *)
+Theorem C03_audit_no_state_between_calls : (hidden_state_messages ++ hidden_state_controls ++ hidden_state_authentication ++ hidden_state_asn1 ++ hidden_state_filter_ber = [])%list.
+Proof. exact eq_refl. Qed.
+
 Print Assumptions C03_encoder_is_rfc4511.
 Print Assumptions C03_strict_decoder_reads_back.
 Print Assumptions C03_ber_tree_round_trip.
 Print Assumptions C03_constants_are_rfc.
 Print Assumptions C03_unbind_refuted.
 Print Assumptions C03_unbind_rejected.
+Print Assumptions C03_audit_no_state_between_calls.
